@@ -140,6 +140,26 @@ fn case(rec: &mut Rec, ctx: &Ctx, idx: u64, rng: &mut ChaCha20Rng) {
       None => return,
     }
   }
+  // --- >= t distinct shares with repeated lines anywhere (client re-submissions),
+  //     in every selection pattern of the core-protocol monitor
+  for pat in crate::gen::SEL_PATTERNS.iter() {
+    let sel = crate::gen::selection(rng, n, tu, *pat);
+    rec.ev("group_shares");
+    rec.ev("group_shares_with_repeats_or_permuted");
+    rec.case(&("wasm-sel", t.min(8), *pat));
+    match quiet(rec, || group_shares(&lines(&sel), &epoch)) {
+      Some(Some(k)) if k == want => rec.ev("group_returned_clients_key"),
+      Some(other) => {
+        rec.violation(
+          &format!("group-shares:wrong-result:{:?}", pat),
+          format!("group_shares returned {:?} for a collection holding >= t={} distinct shares (pattern {:?}, {} lines); the clients hold {}", other, t, pat, sel.len(), want),
+          json!({"input": input, "selection": sel, "lines": lines(&sel)}),
+        );
+        return;
+      }
+      None => return,
+    }
+  }
   // --- fewer than t distinct: nothing (also padded with repeats to t lines)
   if tu >= 2 {
     order.shuffle(rng);
